@@ -220,7 +220,11 @@ def _rand_leaf(rng, counter):
     if x < 0.38:
         y = rng.random()
         if y < 0.5:
-            return ["set", rng.choice(KEYS), rng.choice(CONSTS)]
+            key = rng.choice(KEYS)
+            if key.startswith("output."):
+                # names are strings (a number as output.prefix is a user error, not a case)
+                return ["set", key, rng.choice(["s", "t", "P_", ""])]
+            return ["set", key, rng.choice(CONSTS)]
         if y < 0.93:
             return ["set", rng.choice(KEYS), rng.choice(FORMATS)]
         if y < 0.97:
@@ -870,3 +874,6 @@ def _case(r, obs, tmp):
                       % (got, [(d, c) for d, c, _ in expected]), tree=tree)
     else:
         obs.count("runs_equal_model")
+
+
+RULE += (' Added: Split(copy_buf=False), static output.prefix / output.suffix with MakeFilename(prefix=, suffix=), an enumerated family of two-stage unresolved keys, consumers that change received run-time contexts in place.')
